@@ -281,6 +281,9 @@ class Verdict:
         self.audit_samples = []
         self.tool_errors = []
         shutil.rmtree(os.path.join(REPLAY, prop), ignore_errors=True)   # replay files belong to one run
+        os.makedirs(BUILD, exist_ok=True)
+        self._audit_log = os.path.join(BUILD, "audit_%s.ndjson" % prop)      # every model/bash disagreement of this run (debugging aid)
+        open(self._audit_log, "w").close()
 
     def known_dev(self, dev):
         """finding entry (status known) for an as-built deviation flag, or None"""
@@ -304,6 +307,8 @@ class Verdict:
 
     def audit_miss(self, sample):
         self.audit_disagreements += 1
+        with open(self._audit_log, "a") as f:
+            f.write(json.dumps(sample, default=str) + "\n")
         if len(self.audit_samples) < 5:
             self.audit_samples.append(sample)
 
